@@ -14,7 +14,7 @@ from ..absint import eval_term
 from ..facts import AnalysisError
 from ..sym import enum_members
 from ..terms import const, contains, show, strip_sites, subterms
-from ..util import InlineOnly, NoInline, P, calls_to, engine, loc, param_at
+from ..util import implied_atoms, InlineOnly, NoInline, P, calls_to, engine, loc, param_at
 
 INST = "sd.ServiceInstance"
 ANN = "sd.ServiceAnnouncer"
@@ -94,7 +94,9 @@ def check(run, prog, tier):
         run.ob("K1", f"{hs.qual}:{kind}", ok, loc(hs), msg)
         # running check and match dominate every effect
         if sends or writes or removals:
-            dom = bool(running) and any(c[0] in ("call", "unop") and contains(c, lambda s: s[0] == "bound" and s[-1].endswith("matches_subscribe")) for c, v, _, _ in p.conds)
+            atoms = implied_atoms(p.conds)
+            dom = any(contains(c, lambda s: s == ("attr", me, "_task")) for c, _ in atoms) and \
+                any(v and c[0] == "call" and c[1][0] == "bound" and c[1][-1].endswith("matches_subscribe") for c, v in atoms)
             run.ob("K1", f"{hs.qual}:{kind}-guarded-by-running-and-match", dom, loc(hs), "effects happen only for a running instance whose service matches the entry")
     run.ob("K1", f"{hs.qual}:all-outcomes-present", {"declined", "stop-subscribe", "rejected", "accepted"} <= set(classes), loc(hs), f"outcome classes found: {sorted(classes)}")
     # the subscription used for store, ack and nack is from_subscribe_entry(entry)
@@ -169,12 +171,14 @@ def check(run, prog, tier):
             for ttl in (1, 5, 0xFFFFFF):
                 lf, vals = leaf_entry(m, ttl)
                 # subscription fields as decoded from the entry (zero-options path of from_subscribe_entry)
-                cands = [p for p in fpaths if not any(s[0] == "elem" for c, _, _, _ in p.conds for s in subterms(c))
-                         and not any(s[0] == "elem" for s in subterms(p.retval()))]
+                # (the option lists may be built by loops or by comprehensions: only the echoed fields are evaluated,
+                # so a path qualifies when its branch conditions do not inspect any option)
+                cands = [p for p in fpaths if not any(s[0] == "elem" for c, _, _, _ in p.conds for s in subterms(c))]
+                cands.sort(key=lambda p: any(s[0] == "elem" for s in subterms(p.retval())))
                 fp = None
                 for p in cands:
                     try:
-                        if all(bool(eval_term(c, lf)) == v for c, v, _, _ in p.conds):
+                        if fp is None and all(bool(eval_term(c, lf)) == v for c, v, _, _ in p.conds):
                             fp = p
                     except AnalysisError:
                         continue
